@@ -364,9 +364,22 @@ class Interp:
     def reachable(self, node: ast.AST) -> bool:
         return bool(self.reach.get(id(node)))
 
+    def _names_exist(self, tree: ast.expr) -> None:
+        """a queried condition that calls a private method of this class which no longer exists cannot be decided:
+        the helper was inlined, moved or renamed (analysis error, not a verdict)"""
+        klass = self.prg.class_of_func(self.func)
+        if klass is None:
+            return
+        for sub_ in ast.walk(tree):
+            if isinstance(sub_, ast.Call) and isinstance(sub_.func, ast.Attribute) and isinstance(sub_.func.value, ast.Name) and sub_.func.value.id == "self":
+                name = sub_.func.attr
+                if name.startswith("_") and not name.startswith("__") and f"{klass.qualname}.{name}" not in self.prg.funcs:
+                    raise AnalysisError(f"anchor vanished: the queried condition `{ast.unparse(tree)[:80]}` names {klass.qualname.split(':')[1]}.{name}, which no longer exists")
+
     def holds(self, node: ast.AST, cond: str | ast.expr) -> bool:
         """cond is definitely true in every state reaching node (vacuously true if unreachable)"""
         tree = _canon(ast.parse(cond, mode="eval").body) if isinstance(cond, str) else cond
+        self._names_exist(tree)
         for st in self.states(node):
             outcomes = self.eval_cond(tree, st.copy(), record=False)
             if not outcomes or any(not truth for _, truth in outcomes):
@@ -377,6 +390,7 @@ class Interp:
     def possible(self, node: ast.AST, cond: str | ast.expr) -> bool:
         """cond may be true in some state reaching node"""
         tree = _canon(ast.parse(cond, mode="eval").body) if isinstance(cond, str) else cond
+        self._names_exist(tree)
         for st in self.states(node):
             for _, truth in self.eval_cond(tree, st.copy(), record=False):
                 if truth:
@@ -385,11 +399,85 @@ class Interp:
 
     def expand(self, node: ast.expr, st: State) -> ast.expr:
         out = _Expander(st.alias, self.renames).visit(copy.deepcopy(node))
+        out = self._apply_tables(out, st)
         if self._new_funcs:
             out = self._inline_expression_functions(out, 0)
         return _sort_ops(_simplify_update(out))
 
-    def _inline_expression_functions(self, node: ast.expr, depth: int) -> ast.expr:
+    def _table_of(self, expr: ast.expr) -> Optional[ast.Dict]:
+        """a constant dict display behind `self.NAME` / `Class.NAME` / module-level NAME"""
+        if isinstance(expr, ast.Attribute) and isinstance(expr.value, ast.Name):
+            klass = None
+            if expr.value.id in ("self", "cls"):
+                klass = self.prg.class_of_func(self.func)
+            else:
+                res = self.prg.resolve_callee(self.func, expr.value)
+                klass = self.prg.classes.get(res or "")
+            if klass is not None:
+                for s in klass.node.body:
+                    tgt = s.targets[0] if isinstance(s, ast.Assign) and len(s.targets) == 1 else (s.target if isinstance(s, ast.AnnAssign) else None)
+                    if isinstance(tgt, ast.Name) and tgt.id == expr.attr and isinstance(getattr(s, "value", None), ast.Dict):
+                        return s.value  # type: ignore[union-attr,return-value]
+        if isinstance(expr, ast.Name) and expr.id not in self.locals:
+            val = self.func.module.consts.get(expr.id)
+            if isinstance(val, ast.Dict):
+                return val
+        return None
+
+    def _apply_tables(self, node: ast.expr, st: State) -> ast.expr:
+        """`TABLE[k]` / `TABLE.get(k)` with a constant dict TABLE and a key whose value is known, and a lambda applied to
+        arguments, are replaced by what they evaluate to: a dispatch table reads like the if-chain it replaces"""
+        interp = self
+
+        class T(ast.NodeTransformer):
+            def _lookup(self, table: ast.Dict, key: ast.expr, default: Optional[ast.expr]) -> Optional[ast.expr]:
+                tok = const_token(key)
+                toks = {tok} if tok is not None else interp._vals(unparse(key), st)  # pylint: disable=protected-access
+                if not toks or len(toks) != 1:
+                    return None
+                want = next(iter(toks))
+                for k, v in zip(table.keys, table.values):
+                    if k is not None and const_token(k) == want:
+                        return copy.deepcopy(v)
+                if all(k is not None and const_token(k) is not None for k in table.keys):
+                    return copy.deepcopy(default) if default is not None else ast.Constant(None)
+                return None
+
+            def visit_Subscript(self, sub: ast.Subscript) -> ast.AST:
+                self.generic_visit(sub)
+                table = interp._table_of(sub.value)  # pylint: disable=protected-access
+                if table is not None and isinstance(sub.ctx, ast.Load):
+                    hit = self._lookup(table, sub.slice, None)
+                    if hit is not None and not (isinstance(hit, ast.Constant) and hit.value is None):
+                        return hit
+                return sub
+
+            def visit_Call(self, call: ast.Call) -> ast.AST:
+                self.generic_visit(call)
+                if isinstance(call.func, ast.Attribute) and call.func.attr == "get" and 1 <= len(call.args) <= 2 and not call.keywords:
+                    table = interp._table_of(call.func.value)  # pylint: disable=protected-access
+                    if table is not None:
+                        hit = self._lookup(table, call.args[0], call.args[1] if len(call.args) == 2 else None)
+                        if hit is not None:
+                            return hit
+                if isinstance(call.func, ast.Lambda) and not call.keywords and not any(isinstance(a, ast.Starred) for a in call.args):
+                    lam = call.func
+                    params = [a.arg for a in lam.args.posonlyargs + lam.args.args]
+                    if len(params) == len(call.args) and not (lam.args.vararg or lam.args.kwarg or lam.args.kwonlyargs or lam.args.defaults):
+                        return _Expander(dict(zip(params, call.args)), {}).visit(copy.deepcopy(lam.body))
+                return call
+
+        if not any(isinstance(n, (ast.Subscript, ast.Lambda)) or (isinstance(n, ast.Attribute) and n.attr == "get") for n in ast.walk(node)):
+            return node
+        return T().visit(node)  # type: ignore[no-any-return]
+
+    def inline_locals(self, node: ast.expr) -> ast.expr:
+        """calls of this function's own nested one-expression helpers replaced by their bodies"""
+        prefix = f"{self.func.qualname}.<locals>."
+        also = frozenset(q for q in self.prg.funcs if q.startswith(prefix))
+        return _sort_ops(self._inline_expression_functions(copy.deepcopy(node), 0, also))
+
+    def _inline_expression_functions(self, node: ast.expr, depth: int, also: frozenset[str] = frozenset()) -> ast.expr:
         """a call of a helper that is not part of the reference tree and consists of `return <expr>` (after local
         definitions) is replaced by that expression: extracting a condition or a constructor expression into a helper
         does not change what is decided"""
@@ -401,7 +489,7 @@ class Interp:
                 if depth >= 3 or any(isinstance(a, ast.Starred) for a in call.args) or any(kw.arg is None for kw in call.keywords):
                     return call
                 res = interp.prg.resolve_callee(interp.func, call.func)
-                if res not in interp._new_funcs:
+                if res not in interp._new_funcs and res not in also:
                     return call
                 target = interp.prg.funcs.get(res)  # type: ignore[arg-type]
                 if target is None or isinstance(target.node, ast.Lambda):
@@ -442,7 +530,7 @@ class Interp:
                 for name, val in local.items():
                     env[name] = _Expander(env, {}).visit(copy.deepcopy(val))
                 out = _Expander(env, {}).visit(copy.deepcopy(body[-1].value))
-                return interp._inline_expression_functions(out, depth + 1)
+                return interp._inline_expression_functions(out, depth + 1, also)
 
         return Inl().visit(node)  # type: ignore[no-any-return]
 
@@ -786,9 +874,11 @@ class Interp:
                         fresh.append(s)
             work = []
             body_in: list[State] = []
+            endless = isinstance(node, ast.For) and isinstance(node.iter, ast.Call) and not node.iter.args and (self.prg.resolve_callee(self.func, node.iter.func) or "") in ("itertools.count", "builtins.count")
             for s in fresh:
                 if isinstance(node, ast.For):
-                    exits.append(s)
+                    if not endless:  # `for i in itertools.count():` only ends through break / return
+                        exits.append(s)
                     b = self._head_norm(s, assigned)
                     if mark:
                         b.marks = b.marks - {mark}
@@ -1332,7 +1422,7 @@ class Interp:
             return tok == "None"
         if isinstance(node, (ast.Call,)) and isinstance(node.func, ast.Name) and node.func.id in ("list", "set", "dict", "tuple", "sorted", "len", "str", "int", "bool", "frozenset"):
             return False
-        if isinstance(node, (ast.List, ast.Tuple, ast.Set, ast.Dict, ast.ListComp, ast.SetComp, ast.DictComp, ast.JoinedStr, ast.BinOp)):
+        if isinstance(node, (ast.List, ast.Tuple, ast.Set, ast.Dict, ast.ListComp, ast.SetComp, ast.DictComp, ast.JoinedStr, ast.BinOp, ast.Lambda)):
             return False
         key = unparse(node)
         vals = self._vals(key, st)
